@@ -1480,10 +1480,22 @@ class Chemical:
         """Reset the `H`, `S`, `H_excess`, and `S_excess` functors."""
         if not self._eos:
             self._eos = create_eos(self.EOS_default, self._Tc, self._Pc, self._omega)
+        old_handles = [getattr(self, i, None) for i in _energy_handles]
         TDependentProperty.RAISE_PROPERTY_CALCULATION_ERROR = False
         self._init_energies(self._Cn, self._Hvap, self._Psat, self._Hfus, self._Sfus,
                             self._Tm, self._Tb, self._eos, self._phase_ref, self._S0)
         TDependentProperty.RAISE_PROPERTY_CALCULATION_ERROR = True
+        # Mixture models built earlier hold the previous handle objects; 
+        # keep their identity and update them in place so they follow the new data.
+        setfield = object.__setattr__
+        for name, old in zip(_energy_handles, old_handles):
+            new = getattr(self, name, None)
+            if old is None or new is None or old is new or type(old) is not type(new): continue
+            if isinstance(old, PhaseHandle):
+                for field in ('var', 's', 'l', 'g', 'Tc'): setfield(old, field, getattr(new, field))
+            else:
+                old.__dict__ = new.__dict__
+            setfield(self, name, old)
 
     ### Initializers ###
     
